@@ -174,8 +174,9 @@ class KeyedList(Generic[ItemType, KeyType], MutableSequence, KeyedBase):  # pyli
         if isinstance(index_or_key, slice):
             raise RuntimeError("Cannot delete multiple values at a time.")
         if isinstance(index_or_key, int):
-            value = self._list.pop(index_or_key)
-            del self._dict[self.key(value)]
+            key = self.key(self._list[index_or_key])
+            del self._list[index_or_key]
+            del self._dict[key]
             return
 
         index = self.index_for_key(index_or_key)
